@@ -133,6 +133,17 @@ func init() {
 // genC19: position-parameterised edits.  The generator tracks the *specified* sequence so that
 // positions can be turned into the value found at that position; inserted values are fresh.
 func genC19(g *Gen) {
+	// Replace with old == new: present and absent values (the absence must still be reported)
+	for _, kind := range []string{"slist", "dlist"} {
+		if g.Mine() {
+			ops := []string{"append 2", "append 3", "replace 9 9", "each", "replace 2 2", "each", "replace 1 1",
+				"replace 3 3", "replace 0 0", "find 9"}
+			if kind == "dlist" {
+				ops = append(ops, "first", "last")
+			}
+			g.Emit(kind, []string{"1"}, ops)
+		}
+	}
 	type edit struct {
 		name string
 		pos  int // -1: no position
